@@ -146,8 +146,14 @@ func sameEP(a, b *saml.IndexedEndpoint) bool {
 }
 
 // authnRequestXML builds an AuthnRequest by hand (harness-side, not through the SP code).
+// authnProtocolBinding, when set, adds a ProtocolBinding attribute to the requests authnRequestXML builds.
+var authnProtocolBinding *string
+
 func authnRequestXML(issuer, dest, version, issueInstant, acsURL, acsIdx *string, id string) []byte {
 	el := etree.NewElement("samlp:AuthnRequest")
+	if authnProtocolBinding != nil {
+		el.CreateAttr("ProtocolBinding", *authnProtocolBinding)
+	}
 	el.CreateAttr("xmlns:samlp", samlgen.NSProtocol)
 	el.CreateAttr("xmlns:saml", samlgen.NSAssertion)
 	el.CreateAttr("ID", id)
@@ -271,113 +277,125 @@ func runC05(c *core.Ctx) {
 		}
 		for _, u := range urls {
 			for _, ix := range idxs {
-				u, ix := u, ix
-				key := fmt.Sprintf("route/%s|url=%s/idx=%s", sh.name, u.n, ix.n)
-				c.Case(key, func(t *core.T) {
-					if !prep() {
-						t.Outcome("shape-not-registrable")
-						return
+				for _, pb := range []string{"", saml.HTTPPostBinding, saml.HTTPArtifactBinding} {
+					if pb != "" && (ix.v != nil || len(u.n) > 6) {
+						continue // the request's ProtocolBinding (which the statement gives no say in the routing) with the plain URL choices
 					}
-					if !(len(eps) == 1 && u.v == nil && ix.v == nil) {
-						t.NonTrivial()
+					u, ix, pb := u, ix, pb
+					key := fmt.Sprintf("route/%s|url=%s/idx=%s", sh.name, u.n, ix.n)
+					if pb != "" {
+						key += "/ProtocolBinding=" + pb[strings.LastIndex(pb, ":")+1:]
 					}
-					doc := authnRequestXML(samlgen.S(samlgen.SPEntity), samlgen.S(samlgen.IDPSSO), samlgen.S("2.0"), samlgen.S(samlgen.TS(samlgen.T0)), u.v, ix.v, "id-req-1")
-					var req *saml.IdpAuthnRequest
-					var err error
-					_, p := guard(func() error {
-						req, err = saml.NewIdpAuthnRequest(idp, idpRequest("POST", doc, "rs"))
+					c.Case(key, func(t *core.T) {
+						if !prep() {
+							t.Outcome("shape-not-registrable")
+							return
+						}
+						if pb != "" {
+							authnProtocolBinding = &pb
+							defer func() { authnProtocolBinding = nil }()
+						}
+						if !(len(eps) == 1 && u.v == nil && ix.v == nil) {
+							t.NonTrivial()
+						}
+						doc := authnRequestXML(samlgen.S(samlgen.SPEntity), samlgen.S(samlgen.IDPSSO), samlgen.S("2.0"), samlgen.S(samlgen.TS(samlgen.T0)), u.v, ix.v, "id-req-1")
+						var req *saml.IdpAuthnRequest
+						var err error
+						_, p := guard(func() error {
+							req, err = saml.NewIdpAuthnRequest(idp, idpRequest("POST", doc, "rs"))
+							if err == nil {
+								err = req.Validate()
+							}
+							return nil
+						})
+						t.Impl(1)
+						if p != "" {
+							t.Fail("C05/route/panic@"+p[strings.LastIndex(p, "@")+1:], "Validate panicked: %s", p)
+							return
+						}
+						ru, ri := "", ""
+						if u.v != nil {
+							ru = *u.v
+						}
+						if ix.v != nil {
+							ri = *ix.v
+						}
+						want, dc := c05Select(eps, ru, ri)
+						t.Compared()
 						if err == nil {
-							err = req.Validate()
+							got := req.ACSEndpoint
+							if got == nil {
+								t.Fail("C05/route/accepted-without-endpoint", "Validate succeeded but selected no endpoint")
+								return
+							}
+							registered := false
+							for i := range eps {
+								if sameEP(got, &eps[i]) {
+									registered = true
+								}
+							}
+							if !registered || got.Location == locL3 {
+								t.Fail("C05/route/selected-unregistered-endpoint", "selected endpoint %+v is not one of the registered endpoints %v", *got, eps)
+							}
+							if !dc {
+								t.Modelled(core.MustAccept)
+								if want == nil {
+									t.Fail("C05/route/accepted-without-usable-endpoint", "no endpoint is selectable for this request, yet %+v was selected", *got)
+								} else if !sameEP(got, want) {
+									t.Fail("C05/route/wrong-endpoint-selected", "selected %s#%d (%s), the statement's order (index, else URL, else default/first browser binding) gives %s#%d (%s)", got.Location, got.Index, got.Binding, want.Location, want.Index, want.Binding)
+								}
+							} else {
+								t.Modelled(core.DontCare)
+							}
+							t.Outcome("accept")
+						} else {
+							if !dc && want != nil {
+								t.Modelled(core.MustAccept)
+								t.Fail("C05/route/rejects-routable-request", "request is valid and endpoint %s#%d is selectable, but Validate failed: %v", want.Location, want.Index, err)
+							} else {
+								t.Modelled(core.DontCare)
+							}
+							t.Outcome("reject")
 						}
-						return nil
+						// the response actually written
+						if si >= nQuick {
+							return
+						}
+						w := httptest.NewRecorder()
+						_, p = guard(func() error { idp.ServeSSO(w, idpRequest("POST", doc, "rs")); return nil })
+						t.Impl(1)
+						if p != "" {
+							t.Fail("C05/serve/panic@"+p[strings.LastIndex(p, "@")+1:], "ServeSSO panicked: %s", p)
+							return
+						}
+						body := w.Body.Bytes()
+						hasForm := strings.Contains(string(body), "SAMLResponse")
+						if err != nil && hasForm {
+							t.Fail("C05/serve/response-for-invalid-request", "Validate fails (%v) but ServeSSO wrote a response form", err)
+						}
+						if hasForm {
+							f, ferr := htmlform.Parse(body)
+							if ferr != nil {
+								t.Fail("C05/serve/unparseable-form", "%v", ferr)
+								return
+							}
+							registered := false
+							for i := range eps {
+								if eps[i].Location == f.Action {
+									registered = true
+								}
+							}
+							if !registered || f.Action == locL3 {
+								t.Fail("C05/serve/form-posted-to-unregistered-location", "response form action %q is not a registered ACS location (%v)", f.Action, eps)
+							} else if err == nil && req.ACSEndpoint != nil && f.Action != req.ACSEndpoint.Location {
+								t.Fail("C05/serve/form-action-differs-from-selected-endpoint", "form action %q, selected endpoint %q", f.Action, req.ACSEndpoint.Location)
+							}
+							if err == nil && req.ACSEndpoint != nil && req.ACSEndpoint.Binding != saml.HTTPPostBinding {
+								t.Fail("C05/serve/form-for-non-post-endpoint", "selected endpoint has binding %s but a POST form was written", req.ACSEndpoint.Binding)
+							}
+						}
 					})
-					t.Impl(1)
-					if p != "" {
-						t.Fail("C05/route/panic@"+p[strings.LastIndex(p, "@")+1:], "Validate panicked: %s", p)
-						return
-					}
-					ru, ri := "", ""
-					if u.v != nil {
-						ru = *u.v
-					}
-					if ix.v != nil {
-						ri = *ix.v
-					}
-					want, dc := c05Select(eps, ru, ri)
-					t.Compared()
-					if err == nil {
-						got := req.ACSEndpoint
-						if got == nil {
-							t.Fail("C05/route/accepted-without-endpoint", "Validate succeeded but selected no endpoint")
-							return
-						}
-						registered := false
-						for i := range eps {
-							if sameEP(got, &eps[i]) {
-								registered = true
-							}
-						}
-						if !registered || got.Location == locL3 {
-							t.Fail("C05/route/selected-unregistered-endpoint", "selected endpoint %+v is not one of the registered endpoints %v", *got, eps)
-						}
-						if !dc {
-							t.Modelled(core.MustAccept)
-							if want == nil {
-								t.Fail("C05/route/accepted-without-usable-endpoint", "no endpoint is selectable for this request, yet %+v was selected", *got)
-							} else if !sameEP(got, want) {
-								t.Fail("C05/route/wrong-endpoint-selected", "selected %s#%d (%s), the statement's order (index, else URL, else default/first browser binding) gives %s#%d (%s)", got.Location, got.Index, got.Binding, want.Location, want.Index, want.Binding)
-							}
-						} else {
-							t.Modelled(core.DontCare)
-						}
-						t.Outcome("accept")
-					} else {
-						if !dc && want != nil {
-							t.Modelled(core.MustAccept)
-							t.Fail("C05/route/rejects-routable-request", "request is valid and endpoint %s#%d is selectable, but Validate failed: %v", want.Location, want.Index, err)
-						} else {
-							t.Modelled(core.DontCare)
-						}
-						t.Outcome("reject")
-					}
-					// the response actually written
-					if si >= nQuick {
-						return
-					}
-					w := httptest.NewRecorder()
-					_, p = guard(func() error { idp.ServeSSO(w, idpRequest("POST", doc, "rs")); return nil })
-					t.Impl(1)
-					if p != "" {
-						t.Fail("C05/serve/panic@"+p[strings.LastIndex(p, "@")+1:], "ServeSSO panicked: %s", p)
-						return
-					}
-					body := w.Body.Bytes()
-					hasForm := strings.Contains(string(body), "SAMLResponse")
-					if err != nil && hasForm {
-						t.Fail("C05/serve/response-for-invalid-request", "Validate fails (%v) but ServeSSO wrote a response form", err)
-					}
-					if hasForm {
-						f, ferr := htmlform.Parse(body)
-						if ferr != nil {
-							t.Fail("C05/serve/unparseable-form", "%v", ferr)
-							return
-						}
-						registered := false
-						for i := range eps {
-							if eps[i].Location == f.Action {
-								registered = true
-							}
-						}
-						if !registered || f.Action == locL3 {
-							t.Fail("C05/serve/form-posted-to-unregistered-location", "response form action %q is not a registered ACS location (%v)", f.Action, eps)
-						} else if err == nil && req.ACSEndpoint != nil && f.Action != req.ACSEndpoint.Location {
-							t.Fail("C05/serve/form-action-differs-from-selected-endpoint", "form action %q, selected endpoint %q", f.Action, req.ACSEndpoint.Location)
-						}
-						if err == nil && req.ACSEndpoint != nil && req.ACSEndpoint.Binding != saml.HTTPPostBinding {
-							t.Fail("C05/serve/form-for-non-post-endpoint", "selected endpoint has binding %s but a POST form was written", req.ACSEndpoint.Binding)
-						}
-					}
-				})
+				}
 			}
 		}
 		// IdP-initiated launch on this shape
@@ -461,10 +479,13 @@ func runC05(c *core.Ctx) {
 			for _, is := range issuers {
 				for _, de := range dests {
 					for _, ve := range versions {
-						for ii := 0; ii < 7; ii++ {
+						for ii := 0; ii < 12; ii++ {
 							for _, enc := range encs {
+								if ii >= 7 && (enc != "POST" || tl.name != "default") {
+									continue // the unusual lexical values with one encoding and the default tolerances
+								}
 								gi, tl, is, de, ve, ii, enc := gi, tl, is, de, ve, ii, enc
-								iiNames := []string{"now", "in-1s", "out-1s", "far-out", "future-1h", "absent", "in-1ms"}
+								iiNames := []string{"now", "in-1s", "out-1s", "far-out", "future-1h", "absent", "in-1ms", "year-1677", "year-1500", "year-1066", "year-0001", "now-written-with-offset-minus-0500"}
 								key := fmt.Sprintf("gate/shape=%d/tol=%s/issuer=%s/dest=%s/ver=%s/ii=%s/enc=%s", gi, tl.name, is.n, de.n, ve.n, iiNames[ii], enc)
 								c.Case(key, func(t *core.T) {
 									t.NonTrivial()
@@ -490,6 +511,16 @@ func runC05(c *core.Ctx) {
 										fresh = false
 									case 6:
 										iiv = samlgen.S(samlgen.TS(now.Add(-tl.delay + time.Millisecond)))
+									case 7:
+										iiv, fresh = samlgen.S("1677-09-21T00:12:43Z"), false
+									case 8:
+										iiv, fresh = samlgen.S("1500-01-01T00:00:00Z"), false
+									case 9:
+										iiv, fresh = samlgen.S("1066-10-14T09:00:00Z"), false
+									case 10:
+										iiv, fresh = samlgen.S("0001-01-01T00:00:01Z"), false
+									case 11:
+										iiv = samlgen.S(now.In(time.FixedZone("", -5*3600)).Format("2006-01-02T15:04:05.000-07:00"))
 									}
 									doc := authnRequestXML(is.v, de.v, ve.v, iiv, nil, nil, "id-req-1")
 									var r *http.Request
